@@ -13,7 +13,9 @@ SHARDS_QUICK = 4
 RULE = ('Hypothesis **kern scores of C07\'s domain (kern-only, 1-3 spines, pick-up or not, final barline or not, nested '
         're-joined splits) cut in front of barline rows into 1-6 fragments, with three separator conventions (separator '
         '"\\n" and fragments without final newline; separator "" and fragments ending in a newline; separator "\\n" and '
-        'fragments ending in a newline, i.e. blank lines between fragments).  Thorough tier: EVERY set of <=5 cut '
+        'fragments ending in a newline, i.e. blank lines between fragments); in half of the cases one measure of the score '
+        'is written twice (literal repeat: two fragments can be equal strings) and the cut sets include the one that '
+        'isolates both copies.  Thorough tier: EVERY set of <=5 cut '
         'positions x the three conventions for each document; quick tier: all single cuts, all pairs and 4 drawn larger '
         'sets per document with a convention rotating per cut set.  Oracle: concat(fragments) must give a document whose '
         'deep snapshot and six exports equal those of loads(joined text); one (from, to) pair per fragment; consecutive '
@@ -31,11 +33,33 @@ CONV = [('\n', False), ('', True), ('\n', True)]
 def cases(draw):
     doc = draw(D.measure_documents(D.mprofile(max_measures=5, others=False)))
     extra = [sorted(set(draw(st.lists(st.integers(0, 7), min_size=3, max_size=5)))) for _ in range(4)]
-    return {'doc': doc, 'extra': extra, 'rot': draw(st.integers(0, 2))}
+    return {'doc': doc, 'extra': extra, 'rot': draw(st.integers(0, 2)),
+            'dup': draw(st.one_of(st.none(), st.integers(0, 4)))}
 
 
-def cut_sets(case, bars, exhaustive):
+def _bars(doc):
+    return [i for i, row in enumerate(doc['rows']) if 'c' in row and row['c'][0]['k'] == 'bar' and i > 0]
+
+
+def duplicated(doc, k):
+    """the document with one measure (a barline row and everything up to the next barline row) written twice, so that
+    two fragments can be equal strings; None when no measure of the document can be repeated literally"""
+    bars = _bars(doc)
+    ok = [j for j in range(len(bars) - 1) if len(doc['rows'][bars[j]]['c']) == len(doc['rows'][bars[j + 1]]['c'])]
+    if not ok:
+        return None, None
+    j = ok[k % len(ok)]
+    block = doc['rows'][bars[j]:bars[j + 1]]
+    out = dict(doc)
+    out['rows'] = doc['rows'][:bars[j + 1]] + [dict(r) for r in block] + doc['rows'][bars[j + 1]:]
+    return out, j
+
+
+def cut_sets(case, bars, exhaustive, dup_at=None):
     nb = len(bars)
+    if dup_at is not None and not exhaustive:
+        for ci in range(3):  # both copies of the repeated measure as fragments of their own
+            yield [dup_at, dup_at + 1, dup_at + 2], ci
     if exhaustive:
         for r in range(0, min(5, nb) + 1):
             for sub in itertools.combinations(range(nb), r):
@@ -56,17 +80,19 @@ def cut_sets(case, bars, exhaustive):
 
 
 def check_case(case, exhaustive):
-    doc = case['doc']
+    doc, dup_at = case['doc'], None
+    if case.get('dup') is not None:
+        d2, dup_at = duplicated(doc, case['dup'])
+        doc = d2 or doc
     text = S.render(doc)
     lines = S.render(doc, final=False).split('\n')
     kd = K.loads_clean(text)
     a = S.analyze(doc)
     B, label = MS.choose_numbering(doc, kd)
     full = MS.aligned_full(doc, kd, a)
-    bars = [i for i, row in enumerate(doc['rows']) if 'c' in row and row['c'][0]['k'] == 'bar' and i > 0]
-    ref_snap = None
+    bars = _bars(doc)
     problems, keys, evals = [], [], 0
-    for sub, ci in cut_sets(case, bars, exhaustive):
+    for sub, ci in cut_sets(case, bars, exhaustive, dup_at):
         sep, final_nl = CONV[ci]
         cuts = [0] + [bars[x] for x in sub] + [len(lines)]
         frag_rows = [list(range(cuts[i], cuts[i + 1])) for i in range(len(cuts) - 1)]
@@ -124,7 +150,8 @@ def check_case(case, exhaustive):
         nm = [sum(1 for r in rows if r in B) for rows in frag_rows]
         if len(frags) >= 3 and max(nm) >= 2:
             keys.append([text, cuts, ci])
-    r = Result(nontrivial=bool(keys), evals=evals, classes=K.doc_classes(doc, a) + [label] + (['pickup'] if doc.get('pickup') else []),
+    r = Result(nontrivial=bool(keys), evals=evals, classes=K.doc_classes(doc, a) + [label] + (['pickup'] if doc.get('pickup') else [])
+               + (['measure-written-twice'] if dup_at is not None else []),
                sample={'document': text, 'cut_sets': 'exhaustive' if exhaustive else 'singles, pairs, drawn'})
     r.keys = keys
     r.problems = problems
